@@ -435,4 +435,13 @@ pub fn run(cfg: &Cfg, rep: &mut Report) {
       });
     }
   }
+
+  // thread part: 2-3 subscribers on one share_threads(), emissions racing with
+  // subscribers leaving and joining (baton scheduler at the hooked lock points,
+  // then free-running OS threads)
+  let n = cfg.n(12_000, 600_000);
+  let orc = |o: &super::thr::Outcome, _: &super::thr::Scen| super::thr::share_oracle(o);
+  super::thr::systematic_families(cfg, rep, 0xC11A, &[20, 20, 20], &|_, _| {}, &orc);
+  super::thr::campaign(cfg, rep, "thr", n, 0xC11F, &mut |r: &mut Rng| super::thr::random_scen(r, 20), &orc);
+  super::thr::free_campaign(cfg, rep, cfg.n(2_000, 200_000), 0xC11E, &mut |r: &mut Rng| super::thr::random_scen(r, 20), &orc);
 }
